@@ -9,6 +9,11 @@ import (
 )
 
 func schemaComments(schema *openapi3.Schema) []string {
+	// an unresolved reference has no value
+	if schema == nil {
+		return nil
+	}
+
 	lines := strings.Split(schema.Description, "\n")
 	filtered := make([]string, 0, len(lines))
 
